@@ -1,6 +1,7 @@
 package symex
 
 import (
+	"crypto/sha256"
 	"fmt"
 	"go/types"
 	"runtime/debug"
@@ -53,6 +54,7 @@ func (e *Engine) VerifyAll(filter func(fc *contract.Func) bool) []*FuncReport {
 // VerifyFunc generates the obligations of one function against its contract.
 func (e *Engine) VerifyFunc(fn *ssa.Function, fc *contract.Func) (rep *FuncReport) {
 	rep = &FuncReport{Func: funcDisplay(fn), Key: fc.Key, Pkg: fc.Pkg, Blocks: len(fn.Blocks), SourcePos: e.posString(fn.Pos())}
+	smt.SetFreshScope(scopeTag(funcDisplay(fn)))
 	ctx := &verifyCtx{fn: fn, fc: fc, loops: findLoops(fn)}
 	rep.Loops = len(ctx.loops)
 	for _, li := range ctx.loops {
@@ -360,6 +362,7 @@ func (e *Engine) lemmaEnv(l *contract.Lemma, st *State, override map[string]Valu
 }
 
 func (e *Engine) verifyLemma(l *contract.Lemma) {
+	smt.SetFreshScope(scopeTag("lemma " + l.Name))
 	name := "lemma " + l.Name
 	defer func() {
 		if r := recover(); r != nil {
@@ -406,4 +409,10 @@ func (e *Engine) verifyLemma(l *contract.Lemma) {
 	}
 	envK1 := e.lemmaEnv(l, st, map[string]Value{l.Induct: IntV{smt.Add(k, smt.IntC(1))}})
 	add(st, "step", e.evalBool(envK1, l.Expr))
+}
+
+// scopeTag is the fresh-name scope of a function or lemma: a short hash of its name.
+func scopeTag(name string) string {
+	h := sha256.Sum256([]byte(name))
+	return fmt.Sprintf("%x_", h[:3])
 }
